@@ -100,6 +100,19 @@ func Battery(between func()) (digest string, disagreement string) {
 			fmt.Fprintf(h, "%d|%d|%x|%d|%s\n", ti, sz.n, cn, d.n, got)
 		}
 	}
+	// values only a decoder can produce: bools whose byte is neither 0 nor 1, decoded and re-encoded
+	// (not compared with the reference - no property pins them - only required to be configuration independent)
+	{
+		sc := universe.Sc
+		ob := &ref.Struct{Fields: []*ref.Field{{ID: 1, Req: ref.ReqDefault, Type: sc(ref.KBool)}, {ID: 2, Req: ref.ReqDefault, Type: universe.MapOf(sc(ref.KBool), sc(ref.KBool))},
+			{ID: 3, Req: ref.ReqDefault, Type: universe.ListOf(sc(ref.KBool))}, {ID: 4, Req: ref.ReqDefault, Type: universe.MapOf(sc(ref.KI32), sc(ref.KBool))}, {ID: 5, Req: ref.ReqDefault, Type: universe.MapOf(sc(ref.KBool), sc(ref.KString))}}}
+		msg := []byte{2, 0, 1, 0xff, 13, 0, 2, 2, 2, 0, 0, 0, 1, 0x02, 0xff, 15, 0, 3, 2, 0, 0, 0, 2, 0x80, 0x01, 13, 0, 4, 8, 2, 0, 0, 0, 1, 0, 0, 0, 7, 0x7f, 13, 0, 5, 2, 11, 0, 0, 0, 1, 0xff, 0, 0, 0, 1, 'x', 0}
+		dst := universe.New(ob, nil)
+		d := dec(msg, dst.Interface())
+		b := make([]byte, 128)
+		e := enc(b, dst.Interface())
+		fmt.Fprintf(h, "oddbool|%v|%v|%d|%x\n", d.err != nil, d.pan != nil, size(dst.Interface()).n, b[:e.n])
+	}
 	// mutually nested static types, valid and invalid, and a wrapper around each: accepted or
 	// rejected exactly as in a process that never called a legacy control
 	for pi, p := range universe.GraphPairs {
